@@ -13,6 +13,17 @@ static CASE_CPU_START: AtomicI64 = AtomicI64::new(-1);
 static CASE_DECODED_START: AtomicU64 = AtomicU64::new(0);
 static MAIN_CLOCK: AtomicI64 = AtomicI64::new(0);
 static CLOCK_OK: std::sync::atomic::AtomicBool = std::sync::atomic::AtomicBool::new(false);
+static MAIN_TID: AtomicI64 = AtomicI64::new(0);
+static BLOCK_DETECT: std::sync::atomic::AtomicBool = std::sync::atomic::AtomicBool::new(false);
+/// Workers whose cases run on the worker's main thread alone (C01, C14, C20) turn this on: a case thread that sleeps in the kernel
+/// for 10 s without using any CPU, in a process with no other thread that could wake it, waits for itself.
+pub fn enable_block_detect() { BLOCK_DETECT.store(true, Ordering::Relaxed); }
+/// scheduler state letter of the worker's main thread (`R` running, `S` sleeping, ...), from /proc
+fn main_thread_state() -> u8 {
+    let tid = MAIN_TID.load(Ordering::Relaxed);
+    let s = std::fs::read(format!("/proc/self/task/{}/stat", tid)).unwrap_or_default();
+    match s.iter().rposition(|&b| b == b')') { Some(i) if i + 2 < s.len() => s[i + 2], _ => b'?' }
+}
 
 unsafe impl GlobalAlloc for CountingAlloc {
     unsafe fn alloc(&self, l: Layout) -> *mut u8 {
@@ -46,6 +57,15 @@ pub fn alloc_allowance(input: u64, decoded: u64) -> u64 { (64u64 << 20) + 64 * (
 /// CPU allowance in ns: 5 s + 20 µs per (input + decoded) byte
 pub fn cpu_allowance_ns(input: u64, decoded: u64) -> i64 { 5_000_000_000 + 20_000 * (input + decoded) as i64 }
 
+/// a bare protocol line written straight to the descriptor (no allocation, no lock)
+fn raw_line_plain(kind: &str) {
+    let mut buf = [0u8; 16];
+    let mut n = 0;
+    buf[n] = b'\n'; n += 1;
+    for &b in kind.as_bytes().iter().take(12) { buf[n] = b; n += 1; }
+    buf[n] = b'\n'; n += 1;
+    unsafe { libc::write(1, buf.as_ptr() as *const libc::c_void, n); }
+}
 fn raw_line(kind: &str, extra: u64) {
     // async-signal-safe-ish: format into a stack buffer without allocating
     let mut buf = [0u8; 160];
@@ -86,25 +106,43 @@ pub fn install_worker_monitors() {
         let mut clock: libc::clockid_t = 0;
         libc::pthread_getcpuclockid(libc::pthread_self(), &mut clock);
         MAIN_CLOCK.store(clock as i64, Ordering::Relaxed);
+        MAIN_TID.store(libc::syscall(libc::SYS_gettid) as i64, Ordering::Relaxed);
         CLOCK_OK.store(true, Ordering::Relaxed);
         let mut sa: libc::sigaction = std::mem::zeroed();
         sa.sa_sigaction = on_abort as usize;
         sa.sa_flags = libc::SA_ONSTACK;
         libc::sigaction(libc::SIGABRT, &sa, std::ptr::null_mut());
     }
-    std::thread::Builder::new().name("cpu-monitor".into()).spawn(|| loop {
+    std::thread::Builder::new().name("cpu-monitor".into()).spawn(|| { let (mut last_beat, mut beat_at_cpu) = (std::time::Instant::now(), 0i64); let (mut idle_case, mut idle_cpu, mut idle_since, mut idle_checked) = (u64::MAX, -1i64, std::time::Instant::now(), std::time::Instant::now()); loop {
         std::thread::sleep(std::time::Duration::from_millis(25));
         let start = CASE_CPU_START.load(Ordering::Relaxed);
-        if start < 0 { continue; }
+        if start < 0 { idle_case = u64::MAX; continue; }
+        if BLOCK_DETECT.load(Ordering::Relaxed) && idle_checked.elapsed().as_millis() >= 500 {
+            // "blocked": the same case, asleep in the kernel at every look (twice a second) and not one more microsecond of CPU,
+            // for 10 s. Nothing in the library sleeps or waits for anything outside the process, and no other thread of this
+            // process touches library state, so a sleeping case thread can only be waiting for something it holds itself.
+            idle_checked = std::time::Instant::now();
+            let (case, cpu) = (CASE_IDX.load(Ordering::Relaxed), thread_cpu_ns(MAIN_CLOCK.load(Ordering::Relaxed) as libc::clockid_t));
+            if case != idle_case || cpu != idle_cpu || main_thread_state() != b'S' { idle_case = case; idle_cpu = cpu; idle_since = std::time::Instant::now(); }
+            else if idle_since.elapsed().as_secs() >= 10 {
+                CASE_CPU_START.store(-1, Ordering::Relaxed);
+                raw_line("blocked", idle_since.elapsed().as_secs());
+                unsafe { libc::_exit(96) }
+            }
+        }
         let clock = MAIN_CLOCK.load(Ordering::Relaxed) as libc::clockid_t;
         let used = thread_cpu_ns(clock) - start;
+        // a case that is computing (its CPU time advances) tells the supervisor so every few seconds: the wall-clock watchdog is
+        // for cases that make no progress at all; how much computing is too much is decided by the CPU budget below, also on a
+        // loaded machine where CPU seconds arrive slowly
+        if last_beat.elapsed().as_secs() >= 5 { if used - beat_at_cpu >= 500_000_000 || used < beat_at_cpu { raw_line_plain("H"); } beat_at_cpu = used; last_beat = std::time::Instant::now(); }
         let allow = cpu_allowance_ns(CASE_INPUT.load(Ordering::Relaxed), decoded_in_case());
         if used > allow {
             CASE_CPU_START.store(-1, Ordering::Relaxed);
             raw_line("cpu-budget", (used / 1_000_000) as u64);
             unsafe { libc::_exit(98) }
         }
-    }).expect("spawn monitor");
+    } }).expect("spawn monitor");
 }
 
 pub struct CaseUsage { pub cpu_ns: i64, pub peak_over_base: u64, pub decoded: u64, pub alloc_over: bool }
